@@ -49,6 +49,7 @@ def run_rules(mod, chk):
         generic.class_state_not_shared(chk)
         generic.per_trip_objects_registered(chk)
         generic.containers_not_mutated_while_iterated(chk)
+        generic.flag_brackets_closed(chk)
     chk.repo.on_func = None
     return chk
 
